@@ -34,9 +34,10 @@ typedef	__int128 asn1c_integer_t;
 typedef	intmax_t asn1c_integer_t;
 #endif
 
+/* 2^(N-1)-1, computed without shifting a bit into the sign position */
 #define ASN_INTEGER_MAX    \
-    (~((asn1c_integer_t)0) \
-     & ~((asn1c_integer_t)1 << (8 * sizeof(asn1c_integer_t) - 1)))
+    ((((((asn1c_integer_t)1) << (8 * sizeof(asn1c_integer_t) - 2)) - 1) << 1) \
+     + 1)
 #define ASN_INTEGER_MIN (-(ASN_INTEGER_MAX)-1)
 
 int asn1p_atoi(const char *ptr, asn1c_integer_t *r_value);
